@@ -21,6 +21,8 @@ def run(ctx: Ctx) -> list[Ob]:
     obs += r11.r11d(ctx)
     obs += r4.gather_contracts(ctx) + r4.output_contract(ctx)
     obs += r3.r3g(ctx)
+    obs += r11.r11i(ctx)
+    obs += r12b.param_rewrites(ctx)
     obs += r10.r10i(ctx)
     obs += r7i.rewiring_order(ctx, ['TorchCompiler._compile_circuit'], module='cirkit.backend.torch.compiler', with_outputs=True)
     return obs
@@ -49,6 +51,7 @@ SPEC = PropSpec(
         "(an all -inf row is log 0, not nan), adds the shifts back and drops the reduced axis when keepdim is False. R12b: every layer fuse rule of the optimiser (sum collapse, Tucker, CP) returns a layer that, interpreted on the same abstract input as the chain it replaces, has the same result shape, element order and parameter/data contraction pairing, and carries the compiler's semiring. R4l (element order): a Kronecker layer lists the units of input 0 major, and a sum layer contracts its weight columns against the inputs flattened arity major ([H, Ki]) -- the orders the mixing-weight parameter, the Tucker layer and sampling assume. R11d: stable exponentials shift by a maximum along an axis. R4g (one iteration of LayerAddressBook.lookup and TorchCircuit._evaluate_layers, interpreted on abstract address-book entries): an inner layer fed from one or two source modules with (F1|F2, B, K) outputs and a fold index (F, H) receives (F, H, B, K); an input layer with scope index (F, D) receives (F, B, D) of the (B, Dt) circuit input; the output entry stacks (O, B, K), returned as (B, O, K) -- '(batch, outputs, units)' -- or (O, K) for a circuit over no variables. R7i (compiler): TorchCompiler._compile_circuit wires every compiled layer to the images of its symbolic inputs, and collects the outputs, by order-preserving total maps over sc.layer_inputs(sl) / sc.outputs ('outputs in the declared order'). R4u: forward of every inner layer reads all of its inputs."
         " R3g (a compiled circuit is also one compiled with fold=True): the address-book builders skip the gather of an operand only when its cumulative fold index equals range(<number of folds of the module it reads>) -- a bound derived from anything else hands a module more folds than it addresses, and every later slice offset is wrong."
         " R10i: no evaluation method of a torch-side module updates in place (augmented assignment, name_ method, item assignment) a tensor that aliases one of its arguments -- the arguments are the stored outputs of other modules, handed out as views by the address book."
+        " R11i: every semiring's cast returns a floating-point tensor at its own precision (itself, or converted with a dtype derived from x.dtype), never at torch.get_default_dtype(). R12b also for the parameter-graph rewrites the optimiser applies (log-softmax fusion, reduce-sum of an outer product as an einsum): same shape, same element order."
     ),
     not_decided=(
         "numerical equality with the denoted function (the value computed by a correctly shaped and correctly ordered "
